@@ -231,3 +231,381 @@ Theorem early_return_witness :
   hasher_write cd vf false r (Some (k, None)) = (r, WErr) /\
   dup_unmarshal cd vf true (mkentry BSample (mkid 7 3 5 []) tt None) (Some (k, None)) = None.
 Proof. repeat split; reflexivity. Qed.
+
+(** * concurrent fetches of one CID (Bitswap.v, Section Conc): every number of fetches, every interleaving *)
+Section ConcProofs.
+  Context {root cont cbytes : Type}.
+  Variable cdecode : bty -> cbytes -> option cont.
+  Variable verify : root -> bty -> id -> cont -> bool.
+  Variable k : list Z.
+  Notation fetcher := (@fetcher root cont cbytes).
+  Notation cstate := (@cstate root cont cbytes).
+  Notation cbody := (option (list Z * cbytes)).
+
+  Lemma upd_same (fs : nat -> fetcher) i x : upd fs i x i = x.
+  Proof. unfold upd. rewrite Nat.eqb_refl. reflexivity. Qed.
+  Lemma upd_other (fs : nat -> fetcher) i x j : j <> i -> upd fs i x j = fs j.
+  Proof. unfold upd. intros H. apply Nat.eqb_neq in H. rewrite H. reflexivity. Qed.
+
+  Definition blk_ok (x : fetcher) : Prop :=
+    forall c, e_cont (f_blk x) = Some c -> verify (e_root (f_blk x)) (e_ty (f_blk x)) (e_id (f_blk x)) c = true.
+  Definition populated (x : fetcher) : Prop := e_cont (f_blk x) <> None.
+
+  Lemma populated_verified x : blk_ok x -> populated x -> holds_verified verify x.
+  Proof.
+    unfold blk_ok, populated, holds_verified. intros Hok Hp.
+    destruct (e_cont (f_blk x)) as [c|] eqn:E; [|contradiction]. exists c. split; [reflexivity|]. apply Hok. reflexivity.
+  Qed.
+
+  Lemma populate_ok (x : fetcher) c d p :
+    blk_ok x -> verify (e_root (f_blk x)) (e_ty (f_blk x)) (e_id (f_blk x)) c = true ->
+    blk_ok (mkf (populate (f_blk x) c) d p) /\ populated (mkf (populate (f_blk x) c) d p).
+  Proof.
+    intros Hok V. destruct (populate_fields (f_blk x) c) as [P1 [P2 [P3 P4]]].
+    unfold blk_ok, populated. cbn [f_blk]. rewrite P1, P2, P3, P4. split.
+    - intros c'. destruct (e_cont (f_blk x)) as [c0|] eqn:E; intros H; inversion H; subst; [apply Hok; exact E|exact V].
+    - destruct (e_cont (f_blk x)); discriminate.
+  Qed.
+
+  (** ** what the hasher does to the state *)
+  Lemma check_spec (st st' : cstate) b ok :
+    check cdecode verify k st b = (st', ok) ->
+    (ok = false /\ st' = st) \/
+    (ok = true /\ exists o c,
+       c_owner st = Some o /\
+       verify (e_root (f_blk (c_fs st o))) (e_ty (f_blk (c_fs st o))) (e_id (f_blk (c_fs st o))) c = true /\
+       st' = mkc (upd (c_fs st) o (mkf (populate (f_blk (c_fs st o)) c) true (f_pc (c_fs st o)))) (c_owner st) (c_pend st)).
+  Proof.
+    unfold check. destruct (c_owner st) as [o|] eqn:O; [|intros H; inversion H; left; auto].
+    destruct (hasher_write cdecode verify false [(k, f_blk (c_fs st o))] b) as [r' w] eqn:W.
+    destruct w as [d|]; [|intros H; inversion H; left; auto].
+    apply accept_sound in W. destruct W as [cidb [container [t [e [c [-> [X [L [D [Cd [V ->]]]]]]]]]]].
+    cbn in L. destruct (list_eqb cidb k) eqn:E; [|discriminate]. apply list_eqb_eq in E. subst cidb.
+    inversion L; subst e. cbn. rewrite list_eqb_refl. cbn. rewrite list_eqb_refl.
+    intros H; inversion H; subst. right. split; [reflexivity|]. exists o, c. auto.
+  Qed.
+
+  (** ** safety of the repaired code: whatever the registration discipline *)
+  Section Safety.
+    Variable atomic_reg : bool.
+    Variable trust : bool.
+    Notation step := (cstep_fn cdecode verify atomic_reg trust k).
+
+    Definition good (x : fetcher) : Prop :=
+      blk_ok x /\ (f_done x = true -> populated x) /\ (trust = false -> f_pc x = FRet true -> populated x).
+    Definition Inv1 (st : cstate) : Prop := forall j, good (c_fs st j).
+
+    Lemma good_set_pc x p : good x -> (p = FRet true -> trust = false -> populated x) -> good (set_pc x p).
+    Proof.
+      intros [H1 [H2 H3]] Hp. unfold good, set_pc, blk_ok, populated in *. cbn. repeat split; auto.
+    Qed.
+
+    Lemma good_offer b x : good x -> good (offer b x).
+    Proof.
+      intros H. unfold offer. destruct (f_pc x) as [| | |d [bb|]| | |] eqn:E; try exact H.
+      apply good_set_pc; [exact H|discriminate].
+    Qed.
+
+    Lemma Inv1_upd (st : cstate) f x o p :
+      Inv1 st -> good x -> Inv1 (mkc (upd (c_fs st) f x) o p).
+    Proof. intros H Hx j. cbn. unfold upd. destruct (Nat.eqb j f); [exact Hx|apply H]. Qed.
+
+    Lemma Inv1_publish (st : cstate) b o p : Inv1 st -> Inv1 (mkc (publish b (c_fs st)) o p).
+    Proof. intros H j. cbn. unfold publish. apply good_offer, H. Qed.
+
+    Lemma Inv1_check (st st' : cstate) b ok : check cdecode verify k st b = (st', ok) -> Inv1 st -> Inv1 st'.
+    Proof.
+      intros C H. apply check_spec in C. destruct C as [[_ ->]|[_ [o [c [O [V ->]]]]]]; [exact H|].
+      apply Inv1_upd; [exact H|]. destruct (H o) as [H1 [H2 H3]].
+      destruct (populate_ok (c_fs st o) c true (f_pc (c_fs st o)) H1 V) as [P1 P2].
+      repeat split; auto.
+    Qed.
+
+    Lemma Inv1_ret (st : cstate) f x d ok :
+      Inv1 st -> good x -> (ok = true -> trust = false -> populated x) -> Inv1 (ret st f x d ok).
+    Proof.
+      intros H Hx Hp. unfold ret. apply Inv1_upd; [exact H|]. apply good_set_pc; [exact Hx|].
+      intros E; inversion E; subst. apply Hp. reflexivity.
+    Qed.
+
+    Lemma dup_good (x : fetcher) b e' d p :
+      good x -> dup_unmarshal cdecode verify false (f_blk x) b = Some e' ->
+      good (mkf e' d p) /\ populated (mkf e' d p).
+    Proof.
+      intros [H1 [H2 H3]] U. apply dup_sound in U. destruct U as [c [V ->]].
+      destruct (populate_ok x c d p H1 V) as [P1 P2].
+      split; [|exact P2]. repeat split; auto.
+    Qed.
+
+    Lemma Inv1_step (st : cstate) s : Inv1 st -> Inv1 (step st s).
+    Proof.
+      intros H. destruct s as [f|f|f|f|b|i|b|f|f|f]; cbn [cstep_fn].
+      - destruct (f_pc (c_fs st f)) eqn:E; try exact H.
+        apply Inv1_upd; [exact H|]. apply good_set_pc; [apply H|discriminate].
+      - destruct (f_pc (c_fs st f)) eqn:E; try exact H.
+        destruct (if atomic_reg then is_some (c_owner st) else hit);
+          (apply Inv1_upd; [exact H|]; apply good_set_pc; [apply H|discriminate]).
+      - destruct (f_pc (c_fs st f)) eqn:E; try exact H.
+        apply Inv1_upd; [exact H|]. apply good_set_pc; [apply H|discriminate].
+      - destruct (f_pc (c_fs st f)) eqn:E; try exact H; (apply Inv1_ret; [exact H|apply H|discriminate]).
+      - destruct (check cdecode verify k st b) as [st' ok] eqn:C. pose proof (Inv1_check _ _ _ _ C H) as H'.
+        destruct ok; [|exact H']. intros j. apply H'.
+      - destruct (nth_error (c_pend st) i); [|exact H]. apply Inv1_publish, H.
+      - destruct (check cdecode verify k st b) as [st' ok] eqn:C. pose proof (Inv1_check _ _ _ _ C H) as H'.
+        destruct ok; [|exact H']. apply Inv1_publish. exact H'.
+      - destruct (f_pc (c_fs st f)) as [| | |d [bb|]| | |] eqn:E; try exact H.
+        apply Inv1_upd; [exact H|]. apply good_set_pc; [apply H|discriminate].
+      - destruct (f_pc (c_fs st f)) eqn:E; try exact H.
+        apply (Inv1_publish (mkc (upd (c_fs st) f (set_pc (c_fs st f) (FNotified dup b))) (c_owner st) (c_pend st))).
+        apply Inv1_upd; [exact H|]. apply good_set_pc; [apply H|discriminate].
+      - destruct (f_pc (c_fs st f)) eqn:E; try exact H.
+        destruct (negb dup && (trust || f_done (c_fs st f)))%bool eqn:T.
+        + apply Inv1_ret; [exact H|apply H|]. intros _ Ht. rewrite Ht in T. cbn in T.
+          apply andb_true_iff in T. destruct T as [_ T]. destruct (H f) as [_ [H2 _]]. apply H2. exact T.
+        + destruct (dup_unmarshal cdecode verify false (f_blk (c_fs st f)) b) as [e'|] eqn:U.
+          * destruct (dup_good _ _ _ (negb dup || f_done (c_fs st f))%bool (FNotified dup b) (H f) U) as [G P].
+            apply Inv1_ret; [exact H|exact G|]. intros _ _. exact P.
+          * apply Inv1_ret; [exact H|apply H|discriminate].
+    Qed.
+
+    Lemma Inv1_run tr : forall st : cstate, Inv1 st -> Inv1 (crun cdecode verify atomic_reg trust k st tr).
+    Proof. induction tr as [|s tr IH]; intros st H; [exact H|]. cbn. apply IH, Inv1_step, H. Qed.
+
+    Lemma Inv1_init blk0 : (forall i, e_cont (blk0 i) = None) -> Inv1 (cinit blk0).
+    Proof.
+      intros H j. unfold cinit, good, blk_ok, populated. cbn. rewrite H. repeat split; intros; discriminate.
+    Qed.
+  End Safety.
+
+  (** conc_fetch_sound: with fix-c10-3, for EVERY interleaving of any number of fetches of the CID — registrations, bodies
+      decoded and published at any time, re-publications, cancellations — and even if the registration were not atomic:
+      a Fetch that returns nil holds a populated Block whose container verifies against ITS OWN roots *)
+  Theorem conc_fetch_sound atomic_reg (blk0 : nat -> entry root cont) tr :
+    (forall i, e_cont (blk0 i) = None) ->
+    fetch_safe verify (crun cdecode verify atomic_reg false k (cinit blk0) tr).
+  Proof.
+    intros H0 i Hr. pose proof (Inv1_run atomic_reg false tr _ (Inv1_init false blk0 H0) i) as [G1 [G2 G3]].
+    apply populated_verified; [exact G1|]. apply G3; [reflexivity|exact Hr].
+  Qed.
+
+  (** whatever the variant: no Block ever holds a container that does not verify against its own roots *)
+  Theorem conc_blocks_verified atomic_reg trust (blk0 : nat -> entry root cont) tr i c :
+    (forall i, e_cont (blk0 i) = None) ->
+    let x := c_fs (crun cdecode verify atomic_reg trust k (cinit blk0) tr) i in
+    e_cont (f_blk x) = Some c -> verify (e_root (f_blk x)) (e_ty (f_blk x)) (e_id (f_blk x)) c = true.
+  Proof.
+    intros H0 x. pose proof (Inv1_run atomic_reg trust tr _ (Inv1_init trust blk0 H0) i) as [G1 _]. apply G1.
+  Qed.
+
+  (** ** the registry discipline of the atomic registration: the entry of the CID belongs to exactly the fetch that
+      registered it and has not returned *)
+  Section Registry.
+    Variable trust : bool.
+    Notation step := (cstep_fn cdecode verify true trust k).
+
+    Definition Inv2 (st : cstate) : Prop :=
+      (forall o, c_owner st = Some o -> orig_inflight (f_pc (c_fs st o)) = true) /\
+      (forall j, orig_inflight (f_pc (c_fs st j)) = true -> c_owner st = Some j).
+
+    Lemma oi_offer b (x : fetcher) : orig_inflight (f_pc (offer b x)) = orig_inflight (f_pc x).
+    Proof. unfold offer. destruct (f_pc x) as [| | |d [bb|]| | |] eqn:E; cbn; rewrite ?E; reflexivity. Qed.
+
+    (** a step of fetch [f] that keeps its "registered it myself and in flight" status *)
+    Lemma Inv2_upd_same (st : cstate) f x p :
+      Inv2 st -> orig_inflight (f_pc x) = orig_inflight (f_pc (c_fs st f)) ->
+      Inv2 (mkc (upd (c_fs st) f x) (c_owner st) p).
+    Proof.
+      intros [K2 K3] E. split; cbn; intros j; unfold upd; destruct (Nat.eqb j f) eqn:J.
+      - apply Nat.eqb_eq in J. subst j. intros O. rewrite E. apply K2, O.
+      - apply K2.
+      - apply Nat.eqb_eq in J. subst j. rewrite E. apply K3.
+      - apply K3.
+    Qed.
+
+    Lemma Inv2_publish (st : cstate) b p : Inv2 st -> Inv2 (mkc (publish b (c_fs st)) (c_owner st) p).
+    Proof.
+      intros [K2 K3]. split; cbn; unfold publish; intros j; rewrite oi_offer; [apply K2|apply K3].
+    Qed.
+
+    Lemma Inv2_check (st st' : cstate) b ok : check cdecode verify k st b = (st', ok) -> Inv2 st -> Inv2 st'.
+    Proof.
+      intros C H. apply check_spec in C. destruct C as [[_ ->]|[_ [o [c [O [V ->]]]]]]; [exact H|].
+      apply Inv2_upd_same; [exact H|reflexivity].
+    Qed.
+
+    Lemma Inv2_ret (st : cstate) f x d ok :
+      Inv2 st -> (d = false -> orig_inflight (f_pc (c_fs st f)) = true) -> (d = true -> orig_inflight (f_pc (c_fs st f)) = false) ->
+      Inv2 (ret st f x d ok).
+    Proof.
+      intros [K2 K3] Hd Hd'. unfold ret. split; cbn; intros j; unfold upd; destruct (Nat.eqb j f) eqn:J.
+      - apply Nat.eqb_eq in J. subst j. destruct d; [|discriminate]. intros O. apply K2 in O. rewrite Hd' in O; [discriminate|reflexivity].
+      - destruct d; [apply K2|discriminate].
+      - cbn. discriminate.
+      - intros O. pose proof (K3 _ O) as Oj. destruct d; [exact Oj|].
+        pose proof (K3 _ (Hd eq_refl)) as Of. rewrite Oj in Of. inversion Of. subst. rewrite Nat.eqb_refl in J. discriminate.
+    Qed.
+
+    Lemma Inv2_step (st : cstate) s : Inv2 st -> Inv2 (step st s).
+    Proof.
+      intros H. destruct s as [f|f|f|f|b|i|b|f|f|f]; cbn [cstep_fn].
+      - destruct (f_pc (c_fs st f)) eqn:E; try exact H. apply Inv2_upd_same; [exact H|rewrite E; reflexivity].
+      - destruct (f_pc (c_fs st f)) eqn:E; try exact H. destruct (c_owner st) as [o|] eqn:O; cbn [is_some].
+        + rewrite <- O. apply Inv2_upd_same; [exact H|rewrite E; reflexivity].
+        + destruct H as [K2 K3]. split; cbn; intros j; unfold upd; destruct (Nat.eqb j f) eqn:J.
+          * reflexivity.
+          * intros Oj. inversion Oj. subst. rewrite Nat.eqb_refl in J. discriminate.
+          * apply Nat.eqb_eq in J. subst. reflexivity.
+          * intros Oj. apply K3 in Oj. rewrite O in Oj. discriminate.
+      - destruct (f_pc (c_fs st f)) eqn:E; try exact H. apply Inv2_upd_same; [exact H|rewrite E; destruct dup; reflexivity].
+      - destruct (f_pc (c_fs st f)) eqn:E; try exact H; (apply Inv2_ret; [exact H|intros ->; rewrite E; reflexivity|intros ->; rewrite E; reflexivity]).
+      - destruct (check cdecode verify k st b) as [st' ok] eqn:C. pose proof (Inv2_check _ _ _ _ C H) as H'.
+        destruct ok; [|exact H']. exact H'.
+      - destruct (nth_error (c_pend st) i); [|exact H]. apply Inv2_publish, H.
+      - destruct (check cdecode verify k st b) as [st' ok] eqn:C. pose proof (Inv2_check _ _ _ _ C H) as H'.
+        destruct ok; [|exact H']. apply Inv2_publish. exact H'.
+      - destruct (f_pc (c_fs st f)) as [| | |d [bb|]| | |] eqn:E; try exact H.
+        apply Inv2_upd_same; [exact H|rewrite E; destruct d; reflexivity].
+      - destruct (f_pc (c_fs st f)) eqn:E; try exact H.
+        apply (Inv2_publish (mkc (upd (c_fs st) f (set_pc (c_fs st f) (FNotified dup b))) (c_owner st) (c_pend st))).
+        apply Inv2_upd_same; [exact H|rewrite E; destruct dup; reflexivity].
+      - destruct (f_pc (c_fs st f)) eqn:E; try exact H.
+        destruct (negb dup && (trust || f_done (c_fs st f)))%bool eqn:T.
+        + apply Inv2_ret; [exact H|intros _; rewrite E; destruct dup; [discriminate|reflexivity]|discriminate].
+        + destruct (dup_unmarshal cdecode verify false (f_blk (c_fs st f)) b);
+            (apply Inv2_ret; [exact H|intros ->; rewrite E; reflexivity|intros ->; rewrite E; reflexivity]).
+    Qed.
+
+    Lemma Inv2_run tr : forall st : cstate, Inv2 st -> Inv2 (crun cdecode verify true trust k st tr).
+    Proof. induction tr as [|s tr IH]; intros st H; [exact H|]. cbn. apply IH, Inv2_step, H. Qed.
+
+    Lemma Inv2_init blk0 : Inv2 (cinit blk0).
+    Proof. split; cbn; intros; discriminate. Qed.
+  End Registry.
+
+  (** conc_registry_owner: with the atomic registration, in every reachable state the registry entry of the CID is the
+      entry of a fetch that registered it itself and has not returned, and there is at most one such fetch *)
+  Theorem conc_registry_owner trust (blk0 : nat -> entry root cont) tr :
+    let st := crun cdecode verify true trust k (cinit blk0) tr in
+    (forall o, c_owner st = Some o -> orig_inflight (f_pc (c_fs st o)) = true) /\
+    (forall j, orig_inflight (f_pc (c_fs st j)) = true -> c_owner st = Some j).
+  Proof. exact (Inv2_run trust tr _ (Inv2_init blk0)). Qed.
+
+  (** conc_pending_served: hence the verifier of a pending request is always found — a body that carries the CID, the
+      requested identifier and a container that verifies against the roots of the fetch that registered the CID is accepted
+      by the hasher and fills exactly that fetch, whatever other fetches of the CID have done before *)
+  Theorem conc_pending_served trust (blk0 : nat -> entry root cont) tr f t idb container c :
+    (forall i, e_cont (blk0 i) = None) ->
+    let st := crun cdecode verify true trust k (cinit blk0) tr in
+    let e := f_blk (c_fs st f) in
+    orig_inflight (f_pc (c_fs st f)) = true ->
+    extract_bytes k = Some (t, idb) -> dec (kind_of (e_ty e)) idb = Some (e_id e) ->
+    cdecode (e_ty e) container = Some c -> verify (e_root e) (e_ty e) (e_id e) c = true ->
+    exists st', check cdecode verify k st (Some (k, container)) = (st', true) /\
+                f_done (c_fs st' f) = true /\ holds_verified verify (c_fs st' f).
+  Proof.
+    intros H0 st e Ho X D Cd V.
+    pose proof (Inv2_run trust tr _ (Inv2_init blk0)) as [_ K3]. fold st in K3. pose proof (K3 f Ho) as O.
+    pose proof (Inv1_run true trust tr _ (Inv1_init trust blk0 H0) f) as [G1 _]. fold st in G1.
+    unfold check. rewrite O. unfold hasher_write. rewrite X. cbn [lookup]. rewrite list_eqb_refl.
+    unfold unmarshal_fn. cbn [andb]. fold e. rewrite D, id_eqb_refl. cbn [negb]. rewrite Cd, V.
+    cbn [update]. rewrite list_eqb_refl. cbn [lookup]. rewrite list_eqb_refl.
+    eexists. split; [reflexivity|]. cbn [c_fs]. rewrite upd_same. cbn [f_done]. split; [reflexivity|].
+    destruct (populate_ok (c_fs st f) c true (f_pc (c_fs st f)) G1 V) as [P1 P2].
+    apply populated_verified; assumption.
+  Qed.
+End ConcProofs.
+
+(** ** witnesses: what the two variants break.  One sample identifier; a container is the name of the roots it verifies
+    against *)
+Definition w_id := mkid 7 3 5 [].
+Definition w_k := block_cid BSample w_id.
+Definition w_dec (_ : bty) (x : option bool) : option bool := x.
+Definition w_ver (r : bool) (_ : bty) (_ : id) (c : bool) : bool := Bool.eqb r c.
+Definition w_blk (r : bool) : entry bool bool := mkentry BSample w_id r None.
+Definition w_body (c : bool) : option (list Z * option bool) := Some (w_k, Some c).
+Definition w_run atomic trust roots tr := crun w_dec w_ver atomic trust w_k (cinit (fun i => w_blk (roots i))) tr.
+
+(** seeded change C10-c (Load, then Store) on the code before fix-c10-3: both fetches are between Load and Store, the
+    later Store displaces the earlier entry, the hasher fills fetch 1 only — fetch 0 returns nil with an empty Block.
+    The trace is [overlapping]. *)
+Definition w_twostep : list (cstep (cbytes := option bool)) :=
+  [SEnter 0; SEnter 1; SReg 0; SReg 1; SSub 0; SSub 1; SDeliver (w_body false); SRecv 0; SNotify 0; SFinish 0]%nat.
+
+Theorem conc_twostep_refuted :
+  overlapping w_dec w_ver false true w_k (cinit (fun _ => w_blk false)) w_twostep /\
+  ~ fetch_safe w_ver (w_run false true (fun _ => false) w_twostep).
+Proof.
+  split.
+  - cbn. repeat split; intros j; unfold upd; repeat (destruct (Nat.eqb j _)); reflexivity.
+  - intros H. specialize (H 0%nat eq_refl). destruct H as [c [Hc _]]. vm_compute in Hc. discriminate.
+Qed.
+
+(** the same two-step registration on the repaired code no longer returns unverified data, but it still displaces the
+    verifier of a pending request: fetch 0 (roots [false]) registered the CID itself and is in flight, yet the registry
+    holds the entry of fetch 1 (roots [true]) and the honest body for fetch 0 is rejected *)
+Theorem conc_twostep_displaces :
+  let st := w_run false false (fun i => Nat.eqb i 1) [SEnter 0; SEnter 1; SReg 0; SReg 1]%nat in
+  orig_inflight (f_pc (c_fs st 0%nat)) = true /\ c_owner st = Some 1%nat /\
+  snd (check w_dec w_ver w_k st (w_body false)) = false.
+Proof. vm_compute. repeat split. Qed.
+
+(** the code before fix-c10-3 with the atomic registration.  (1) A second copy of the block is decoded while fetch 0 is
+    registered and published after fetch 0 has returned and fetch 1 has registered and subscribed. *)
+Definition w_stale : list (cstep (cbytes := option bool)) :=
+  [SEnter 0; SReg 0; SSub 0; SDeliver (w_body false); SCheck (w_body false); SRecv 0; SNotify 0; SFinish 0;
+   SEnter 1; SReg 1; SSub 1; SPublish 0; SRecv 1; SNotify 1; SFinish 1]%nat.
+(** (2) The duplicate's NotifyNewBlocks re-publishes the block after the original requester has returned and a third
+    fetch has registered and subscribed. *)
+Definition w_notify : list (cstep (cbytes := option bool)) :=
+  [SEnter 0; SReg 0; SSub 0; SEnter 1; SReg 1; SSub 1; SDeliver (w_body false); SRecv 0; SNotify 0; SFinish 0; SRecv 1;
+   SEnter 2; SReg 2; SSub 2; SNotify 1; SFinish 1; SRecv 2; SNotify 2; SFinish 2]%nat.
+
+Theorem conc_trust_refuted :
+  ~ fetch_safe w_ver (w_run true true (fun _ => false) w_stale) /\
+  ~ fetch_safe w_ver (w_run true true (fun _ => false) w_notify).
+Proof.
+  split; intros H.
+  - specialize (H 1%nat eq_refl). destruct H as [c [Hc _]]. vm_compute in Hc. discriminate.
+  - specialize (H 2%nat eq_refl). destruct H as [c [Hc _]]. vm_compute in Hc. discriminate.
+Qed.
+
+(** non-vacuity: on the repaired code the same three traces end with every fetch returned nil and verified *)
+Example conc_nonvacuous :
+  let a := w_run true false (fun _ => false) w_stale in
+  let b := w_run true false (fun _ => false) w_notify in
+  let c := w_run true false (fun _ => false) w_twostep in
+  f_pc (c_fs a 1%nat) = FRet true /\ e_cont (f_blk (c_fs a 1%nat)) = Some false /\
+  f_pc (c_fs b 2%nat) = FRet true /\ e_cont (f_blk (c_fs b 2%nat)) = Some false /\
+  f_pc (c_fs c 0%nat) = FRet true /\ e_cont (f_blk (c_fs c 0%nat)) = Some false /\ c_owner c = None.
+Proof. vm_compute. repeat split. Qed.
+
+(** * serving a row from any representation *)
+Section ServeRowProofs.
+  Context {share : Type}.
+  Variable parity recover : list share -> list share.
+  Hypothesis recover_parity : forall l, recover (parity l) = l.
+
+  (** serve_row_any_half: whichever half the accessor hands out (and says so), the row RowBlock.Populate builds verifies
+      against the committed row and yields exactly its shares *)
+  Theorem serve_row_any_half (data : list share) (h : bool * list share) :
+    half_of parity data h ->
+    row_verifies parity recover (data ++ parity data) (to_row true h) /\
+    row_shares parity recover (to_row true h) = data ++ parity data.
+  Proof.
+    intros [-> | ->]; unfold row_verifies, row_shares, to_row; cbn; rewrite ?recover_parity; auto.
+  Qed.
+End ServeRowProofs.
+
+(** seeded change C10-d: the flag dropped — the parity half labelled LEFT does not verify *)
+Theorem serve_row_flag_dropped_refuted :
+  let parity := map Z.succ in let recover := map Z.pred in
+  (forall l, recover (parity l) = l) /\
+  half_of parity [1] (true, parity [1]) /\
+  ~ row_verifies parity recover ([1] ++ parity [1]) (to_row false (true, parity [1])) /\
+  row_verifies parity recover ([1] ++ parity [1]) (to_row true (true, parity [1])).
+Proof.
+  cbn. repeat split.
+  - intros l. rewrite map_map. rewrite <- (map_id l) at 2. apply map_ext. intros. lia.
+  - right. reflexivity.
+  - unfold row_verifies. cbn. discriminate.
+Qed.
